@@ -13,10 +13,12 @@ pub mod c05;
 pub mod c06;
 pub mod c07;
 pub mod c08;
+pub mod c09;
 pub mod c10;
 pub mod c11;
 pub mod c12;
 pub mod c13;
+pub mod c14;
 pub mod c15;
 pub mod c18;
 pub mod harvest;
@@ -33,10 +35,12 @@ pub fn run_check(id: &str, ctx: &Ctx) -> Option<Report> {
         "C06" => c06::run(ctx),
         "C07" => c07::run(ctx),
         "C08" => c08::run(ctx),
+        "C09" => c09::run(ctx),
         "C10" => c10::run(ctx),
         "C11" => c11::run(ctx),
         "C12" => c12::run(ctx),
         "C13" => c13::run(ctx),
+        "C14" => c14::run(ctx),
         "C15" => c15::run(ctx),
         "C18" => c18::run(ctx),
         "C16" => c16::run(ctx),
@@ -50,6 +54,8 @@ pub fn extra_judge(id: &str) -> Option<fn(&World, &RunResult) -> Vec<Violation>>
     match id {
         "C07" => Some(c07::judge),
         "C08" => Some(c08::judge),
+        "C09" => Some(c09::judge),
+        "C14" => Some(c14::judge),
         "C15" => Some(c15::judge),
         "C16" => Some(c16::judge),
         _ => None,
@@ -67,8 +73,10 @@ pub fn own_clauses(id: &str) -> &'static [&'static str] {
         "C06" => c06::OWN,
         "C07" => c07::OWN,
         "C08" => c08::OWN,
+        "C09" => c09::OWN,
         "C12" => c12::OWN,
         "C13" => c13::OWN,
+        "C14" => c14::OWN,
         "C15" => c15::OWN,
         "C18" => c18::OWN,
         "C16" => c16::OWN,
